@@ -114,29 +114,6 @@ type c05Req struct {
 	newConn bool
 }
 
-func parseCred(first string, users map[string]string) (cred string, basicok bool) {
-	if first == "" {
-		return "none", false
-	}
-	if len(first) >= 6 && strings.EqualFold(first[:6], "basic ") {
-		if b, err := base64.StdEncoding.DecodeString(first[6:]); err == nil {
-			if i := strings.IndexByte(string(b), ':'); i >= 0 {
-				u, p := string(b[:i]), string(b[i+1:])
-				pw, ok := users[u]
-				return "basic:" + hx([]byte(u)) + ":" + hx([]byte(p)), ok && pw != "" && pw == p
-			}
-		}
-		return "other", false
-	}
-	if strings.HasPrefix(first, "NTLM ") {
-		return "ntlm:" + hx([]byte(first[5:])), false
-	}
-	if strings.HasPrefix(first, "Negotiate ") {
-		return "negotiate:" + hx([]byte(first[10:])), false
-	}
-	return "other", false
-}
-
 func runC05(r *Run) {
 	r.rule = "every startable subset of {openid, kerberos, local, ntlm} started as the real binary (TLS as the configuration demands, fake IdP, fake gRPC authentication service wrapping the real NTLM verifier, generated keytab/krb5.conf) × Authorization headers: absent, empty, bare scheme keywords, truncated and wrong-case schemes, a disabled mechanism's scheme, several headers, well-formed wrong and right credentials, NTLM exchanges in order / out of order / across connections × methods; non-trivial = every request; distinct by (subset, request)"
 	r.TierRan("binary")
@@ -154,6 +131,12 @@ func runC05(r *Run) {
 	_, hostPort := splitHostPort(host.addr)
 	portUser := fmt.Sprint(hostPort) // a user whose name is the port of "his" desktop host
 	users := map[string]string{"alice": "wonderland", "bob": "builder", "nopass": "", portUser: "port-user-password", "longpw": strings.Repeat("correct horse battery staple ", 320)}
+	var userPairs []string
+	for u, pw := range users {
+		userPairs = append(userPairs, hx([]byte(u))+":"+hx([]byte(pw)))
+	}
+	sort.Strings(userPairs)
+	usersHex := strings.Join(userPairs, ",")
 	sock := filepath.Join(dir, "auth.sock")
 	fa := startFakeAuth(sock, users)
 	defer fa.stop()
@@ -250,6 +233,31 @@ func runC05(r *Run) {
 			{"RDG_OUT_DATA", []string{"Negotiate AABasicAA"}, true, "negotiate-payload-spelling-basic", true},
 			{"RDG_OUT_DATA", []string{"Basic " + b64("al:52\u0300")}, true, "basic-payload-spelling-ntlm", true}, // YWw6NTLMgA==
 			{"RDG_OUT_DATA", []string{"Basic " + b64("Negotiate:NTLM")}, true, "basic-credentials-naming-schemes", true},
+			// the syntax of the Basic value: padding, alphabet, separators (the model decodes base64 itself)
+			{"RDG_OUT_DATA", []string{"Basic " + strings.TrimRight(b64("alice:wonderland"), "=")}, true, "basic-syntax", true},
+			{"RDG_OUT_DATA", []string{"Basic " + b64("alice:wonderland") + "="}, true, "basic-syntax", true},
+			{"RDG_OUT_DATA", []string{"Basic " + b64("alice:wonderland") + b64("x")}, true, "basic-syntax", true},
+			{"RDG_OUT_DATA", []string{"Basic " + b64("bob:builder")}, true, "basic-syntax-right-no-padding", true},
+			{"RDG_OUT_DATA", []string{"Basic " + b64("bob:builder") + "===="}, true, "basic-syntax", true},
+			{"RDG_OUT_DATA", []string{"Basic  " + b64("alice:wonderland")}, true, "basic-syntax-two-spaces", true},
+			{"RDG_OUT_DATA", []string{"Basic\t" + b64("alice:wonderland")}, true, "basic-syntax-tab", true},
+			{"RDG_OUT_DATA", []string{"Basic" + b64("alice:wonderland")}, true, "basic-syntax-no-space", true},
+			{"RDG_OUT_DATA", []string{"bAsIc " + b64("alice:wonderland")}, true, "basic-syntax-mixed-case", true},
+			{"RDG_OUT_DATA", []string{"Basic " + strings.NewReplacer("+", "-", "/", "_").Replace(b64("alice:wonderland"))}, true, "basic-syntax", true},
+			{"RDG_OUT_DATA", []string{"Basic " + base64.URLEncoding.EncodeToString([]byte("bob:builder?>"))}, true, "basic-syntax-url-alphabet", true},
+			{"RDG_OUT_DATA", []string{"Basic " + b64("alice:wonderland")[:8] + "=" + b64("alice:wonderland")[9:]}, true, "basic-syntax-inner-padding", true},
+			{"RDG_OUT_DATA", []string{"Basic " + b64("alice:wonderland")[:8] + " " + b64("alice:wonderland")[8:]}, true, "basic-syntax-inner-space", true},
+			{"RDG_OUT_DATA", []string{"Basic YWxpY2U6d29uZGVybGFuZB=="}, true, "basic-syntax-nonzero-trailing-bits", true},
+			{"RDG_OUT_DATA", []string{"Basic " + b64("alice:wonderland\x00")}, true, "basic-syntax-nul", true},
+			{"RDG_OUT_DATA", []string{"Basic " + b64("alice\x00:wonderland")}, true, "basic-syntax-nul", true},
+			{"RDG_OUT_DATA", []string{"Basic " + b64(":")}, true, "basic-syntax-empty-pair", true},
+			{"RDG_OUT_DATA", []string{"Basic " + b64("alice:")}, true, "basic-syntax-empty-password", true},
+			{"RDG_OUT_DATA", []string{"Basic " + b64(":wonderland")}, true, "basic-syntax-empty-user", true},
+			{"RDG_OUT_DATA", []string{"Basic" + " " + b64("alice:wonderland"), "Basic " + b64("bob:builder")}, true, "basic-syntax-two-pairs", true},
+			{"RDG_OUT_DATA", []string{"Basic " + b64("alice:wrong"), "Basic " + b64("alice:wonderland")}, true, "basic-syntax-right-pair-second", true},
+			{"RDG_OUT_DATA", []string{"ntlm " + b64("garbage message")}, true, "ntlm-lowercase-scheme", true},
+			{"RDG_OUT_DATA", []string{"negotiate " + b64("garbage message")}, true, "negotiate-lowercase-scheme", true},
+			{"RDG_OUT_DATA", []string{"Bearer x", "NTLM " + b64("garbage message")}, true, "second-header-ntlm", true},
 			// confirmed credentials that make a request head of 13 KB
 			{"RDG_OUT_DATA", []string{"Basic " + b64("longpw:"+users["longpw"])}, true, "basic-right-long", true},
 			{"RDG_OUT_DATA", []string{"Basic " + b64("longpw:"+users["longpw"][:9000]+"x")}, true, "basic-wrong-long", true},
@@ -282,21 +290,22 @@ func runC05(r *Run) {
 			if len(q.auths) > 0 {
 				firstV = q.auths[0]
 			}
-			cred, basicok := parseCred(firstV, users)
-			has := func(s string) bool {
+			// the model parses the header's values itself (Http.classify: Header.Get, r.BasicAuth(), HeadersRegexp)
+			// and looks the pair up in the backend's table
+			authsHex := "_"
+			if len(q.auths) > 0 {
+				var hs []string
 				for _, a := range q.auths {
-					if strings.Contains(a, s) {
-						return true
-					}
+					hs = append(hs, hx([]byte(a)))
 				}
-				return false
+				authsHex = strings.Join(hs, ",")
 			}
 			nt := ntres
 			if strings.HasPrefix(nt, "ok:") {
 				nt = "ok:" + hx([]byte(strings.TrimPrefix(nt, "ok:")))
 			}
-			line := fmt.Sprintf("route openid=%s kerberos=%s basic=%s ntlm=%s cred=%s hasntlm=%s hasneg=%s hasbasic=%s basicok=%s ntlmres=%s spnego=none",
-				b01(openid), b01(kerberos), b01(local), b01(ntlmOn), cred, b01(has("NTLM")), b01(has("Negotiate")), b01(has("Basic")), b01(basicok), nt)
+			line := fmt.Sprintf("route openid=%s kerberos=%s basic=%s ntlm=%s auths=%s users=%s ntlmres=%s spnego=none",
+				b01(openid), b01(kerberos), b01(local), b01(ntlmOn), authsHex, usersHex, nt)
 			want := r.Oracle([]string{line})[0]
 			r.Count(strings.Join(mechs, "+") + "|" + q.method + "|" + strings.Join(q.auths, "|") + "|" + q.class)
 			r.Dist("mechs:" + strings.Join(mechs, "+"))
